@@ -6,6 +6,7 @@ mod arena;
 mod obl;
 mod props;
 mod reference;
+mod rng;
 mod sym;
 
 use arena::Node;
